@@ -2,6 +2,7 @@ package rules
 
 import (
 	"fmt"
+	"go/token"
 	"go/types"
 	"sort"
 	"strings"
@@ -221,4 +222,133 @@ func checkLockPairing(c *Ctx, res *report.Result, rule string, pkgRels []string,
 	if n < minSections {
 		res.Undec(rule, "critical sections", "", fmt.Sprintf("%d found, at least %d expected", n, minSections))
 	}
+}
+
+// registryAccessors: what each accessor of the shard manager's registries must do, by name (reviewed).
+var registryAccessors = []struct {
+	fn, kind, field string
+}{
+	{"SetRemoteSendChan", "store", "remoteSendChannels"},
+	{"SetLocalAckChan", "store", "localAckChannels"},
+	{"SetLocalReceiverCancelFunc", "store", "localReceiverCancelFuncs"},
+	{"RegisterActiveReceiver", "store", "activeReceivers"},
+	{"RemoveRemoteSendChan", "delete", "remoteSendChannels"},
+	{"RemoveLocalAckChan", "delete", "localAckChannels"},
+	{"RemoveLocalReceiverCancelFunc", "delete", "localReceiverCancelFuncs"},
+	{"UnregisterActiveReceiver", "delete", "activeReceivers"},
+	{"setOnPeerJoin", "field", "onPeerJoin"},
+	{"setOnPeerLeave", "field", "onPeerLeave"},
+	{"setOnLocalShardChange", "field", "onLocalShardChange"},
+	{"setOnRemoteShardChange", "field", "onRemoteShardChange"},
+}
+
+// checkRegistryAccessors: the registry accessors do what the incarnations rely on: a Set / Register stores its
+// value parameter under its key parameter on every path; a Remove / Unregister contains the delete of its key
+// parameter (when it may run is O8.1); a callback setter stores its handler parameter in its field. An accessor
+// that silently does nothing leaves the newest stream unregistered (no delivery or ack channel, no replay) or a dead
+// one registered for ever.
+func checkRegistryAccessors(c *Ctx, res *report.Result, rule string) {
+	for _, a := range registryAccessors {
+		f := resolve(c, res, rule, anchor{"proxy", "*shardManagerImpl", a.fn})
+		if f == nil {
+			continue
+		}
+		isParam := func(v ssa.Value) bool {
+			_, ok := flow.Strip(v).(*ssa.Parameter)
+			return ok
+		}
+		switch a.kind {
+		case "store":
+			isStore := func(x ssa.Instruction) bool {
+				mu, ok := x.(*ssa.MapUpdate)
+				if !ok {
+					return false
+				}
+				_, fld, okf := flow.FieldLoadOf(mu.Map)
+				return okf && fld == a.field && isParam(mu.Key) && isParam(mu.Value)
+			}
+			r := flow.FindPath(flow.Point{Block: f.Blocks[0]}, flow.IsReturn, isStore, nil)
+			res.Check(!r.Found, rule, a.fn+" stores its value under its key in "+a.field, fnPos(c.Prog, f), "every path passes "+a.field+"[key] = value (both parameters)", "the accessor can return without registering (path "+flow.BlockPath(r.Via)+"): the newest incarnation's channel / cancel function / receiver is never found by the others")
+		case "delete":
+			n := 0
+			for _, call := range flow.Calls(f) {
+				bi, ok := call.Common().Value.(*ssa.Builtin)
+				if !ok || bi.Name() != "delete" {
+					continue
+				}
+				_, fld, okf := flow.FieldLoadOf(call.Common().Args[0])
+				if okf && fld == a.field && isParam(call.Common().Args[1]) {
+					n++
+				}
+			}
+			res.Check(n >= 1, rule, a.fn+" contains the delete of its key from "+a.field, fnPos(c.Prog, f), "delete("+a.field+", key)", "the accessor never removes anything: a dead incarnation stays registered after all streams have ended")
+		case "field":
+			isStore := func(x ssa.Instruction) bool {
+				st, ok := x.(*ssa.Store)
+				if !ok {
+					return false
+				}
+				fa, ok := st.Addr.(*ssa.FieldAddr)
+				return ok && flow.FieldName(fa.X.Type(), fa.Field) == a.field && isParam(st.Val)
+			}
+			r := flow.FindPath(flow.Point{Block: f.Blocks[0]}, flow.IsReturn, isStore, nil)
+			res.Check(!r.Found, rule, a.fn+" installs the handler it is given", fnPos(c.Prog, f), "every path stores the parameter in "+a.field, "the setter can return without installing the callback (path "+flow.BlockPath(r.Via)+"): shard changes are then not acted upon (no watermark replay, no reconciliation of intra-proxy streams)")
+		}
+	}
+}
+
+// checkSendChansByClusterFilter: GetRemoteSendChansByCluster copies exactly the entries of remoteSendChannels whose
+// key's ClusterID equals the requested cluster: the one store into the result is keyed and valued by the range
+// element and guarded by `k.ClusterID == clusterID` on its true side, and by nothing else. This is the target list of
+// the watermark fan-out (O1.4 / O3.5).
+func checkSendChansByClusterFilter(c *Ctx, res *report.Result, rule string) {
+	f := resolve(c, res, rule, anchor{"proxy", "*shardManagerImpl", "GetRemoteSendChansByCluster"})
+	if f == nil {
+		return
+	}
+	var upd *ssa.MapUpdate
+	for _, b := range f.Blocks {
+		for _, ins := range b.Instrs {
+			if mu, ok := ins.(*ssa.MapUpdate); ok {
+				if _, isMk := mu.Map.(*ssa.MakeMap); isMk {
+					upd = mu
+				}
+			}
+		}
+	}
+	construct := "GetRemoteSendChansByCluster returns exactly the channels of the requested cluster"
+	if upd == nil {
+		res.Viol(rule, construct, fnPos(c.Prog, f), "nothing is ever put into the result: the watermark fan-out has no targets")
+		return
+	}
+	ok, why := false, "the copy is not guarded by `key.ClusterID == clusterID`"
+	for _, g := range flow.NormGuards(flow.Guards(upd.Block())) {
+		bo, isB := g.Cond.(*ssa.BinOp)
+		if !isB {
+			continue
+		}
+		if bo.Op == token.EQL || bo.Op == token.NEQ {
+			px, _ := flow.FieldPath(bo.X)
+			_, yParam := flow.Strip(bo.Y).(*ssa.Parameter)
+			_, xParam := flow.Strip(bo.X).(*ssa.Parameter)
+			py, _ := flow.FieldPath(bo.Y)
+			if (strings.HasSuffix(px, "ClusterID") && yParam) || (strings.HasSuffix(py, "ClusterID") && xParam) {
+				if (bo.Op == token.EQL) == g.Side {
+					ok = true
+				} else {
+					ok, why = false, "the copy is made for the channels of every OTHER cluster"
+					break
+				}
+				continue
+			}
+		}
+		if ex, isEx := g.Cond.(*ssa.Extract); isEx {
+			if _, isNext := ex.Tuple.(*ssa.Next); isNext {
+				continue // the range's own ok
+			}
+		}
+		ok, why = false, "the copy is additionally conditioned on "+flow.Describe(g.Cond)
+		break
+	}
+	res.Check(ok, rule, construct, instrPos(c.Prog, upd), "result[k] = v under k.ClusterID == clusterID", why+": the watermark of an idle source is fanned out to the wrong set of target streams - targets of this cluster never hear it and never confirm it")
 }
